@@ -577,7 +577,7 @@ pub fn eval(expr: Node) -> Result<Number, Box<dyn error::Error>> {
             for arg in <Vec<Node> as Clone>::clone(&args).into_iter() {
                 #[cfg(feature = "verif_hooks")]
                 crate::verif_hooks::tick();
-                results.push(eval(arg).unwrap());
+                results.push(eval(arg)?);
             }
             results.sort_by(|a, b| {
                 let a = match a {
@@ -588,7 +588,8 @@ pub fn eval(expr: Node) -> Result<Number, Box<dyn error::Error>> {
                     Number::Integer(x) => (*x) as f64,
                     Number::Float(x) => *x,
                 };
-                a.partial_cmp(&b).unwrap()
+                a.partial_cmp(&b)
+                    .unwrap_or_else(|| a.is_nan().cmp(&b.is_nan()))
             });
             let len = results.len();
             if len % 2 == 0 {
